@@ -72,11 +72,7 @@ def handle (op : String) (j : Json) : Except String Json := do
     let src ← getNatList j "src"
     let tgt ← getNatList j "tgt"
     let sB ← getNatList j "s"
-    let r := match specEncode src sB with
-      | none => none
-      | some d => match (if op == "retarget" then retargetFull src tgt d else changeEncoding src tgt d) with
-        | none => none
-        | some d' => specDecode tgt d'
+    let r := if op == "retarget" then retargetText src tgt sB else changeText src tgt sB
     let m := match r with
       | some t => Json.mkObj [("text", natList t)]
       | none => errJ none
@@ -85,12 +81,7 @@ def handle (op : String) (j : Json) : Except String Json := do
     let src ← getNatList j "src"
     let tgt ← getNatList j "tgt"
     let rows ← getNatListList j "rows"
-    -- ragged re-targeting / change_encoding act on the flat data and keep the row lengths
-    let r := match specEncode src rows.flatten with
-      | none => none
-      | some d => match (if op == "retarget_view" then retargetFull src tgt d else changeEncoding src tgt d) with
-        | none => none
-        | some d' => (specDecode tgt d').map (unflatten (rows.map List.length))
+    let r := if op == "retarget_view" then retargetRows src tgt rows else changeRows src tgt rows
     let m := match r with
       | some t => Json.mkObj [("rows", natListList t)]
       | none => errJ none
